@@ -803,6 +803,16 @@ var syntaxZoo = []string{
 	"a.b.c['d'].e(f)(g)[h]=new a.b.c(d)",
 	"i++\nj--\n++i\n--j",
 	"x='é€𝄞 漢字  ';",
+	"y=/=a/;z=/=/g.test('=');w=a/=2;",
+	"r=[/=x/,/[=]/,/\\=/i];if(/=/.test(s))t=1;",
+	"q=a/b/c;q/=d;q=(a)/2/e;q=a++/2;q=b[0]/2/f;",
+	"s='a\\\nb';t=\"\\0\\b\\f\\v\\t\\r\";",
+	"u=0.0;v=0;w=00;x=1.;y=.0e0;z=0X1f;",
+	"a=b?function(){}:function c(){};(function(){})();!function(){}();new function(){};",
+	"a={'x':1,\"y\":2,0:3,1.5:4,0x10:5,null:6,function:7,get:8,set:9,get get(){return 1},set set(v){}};",
+	"if(a){}else{}\nfor(;;)break;\nwhile(a)continue;\nl:{break l}",
+	"a=b\n++c;d=e\n--f;g=h\n/i/j;",
+	"var a\nvar b=1,c\nreturn_=1\n",
 }
 
 // constructs that ES5 rejects at parse time (syntax errors and the early errors
